@@ -68,4 +68,50 @@ def handle (args : List String) : String :=
     | none => "bad-args"
     | some dis => Proto.showInts (mst dis bf (if k < 0 then none else some k.toNat) (ex = 1))
   | _, _, _, _ => "bad-args"
+
+/-! ## `BranchTreeAssembler.pair` (`swcgeom/transforms/branch_tree.py`): greedy pairing of branch ends with children
+
+`dis[b][e]` is the distance between the last sample of branch `b` and child `e` (the model is fed squared
+distances: the square root is monotone, so the first minimum is the same cell).  Each round takes the first
+minimum of the whole matrix and then sets its row and its column to `inf`. -/
+structure PairSt where
+  rows : List Bool          -- `true` = row set to inf
+  cols : List Bool
+  pairs : List (Nat × Nat)
+deriving Repr
+
+def pairArgmin (dis : List (List Rat)) (s : PairSt) (m : Nat) : Nat × Nat :=
+  let cells := (List.range m).flatMap fun i => (List.range m).map fun j => (i, j)
+  let best := cells.foldl (fun (b : Option (Rat × Nat × Nat)) ij =>
+    if (s.rows.getD ij.1 false || s.cols.getD ij.2 false) then b
+    else
+      let c := (dis.getD ij.1 []).getD ij.2 0
+      match b with
+      | none => some (c, ij.1, ij.2)
+      | some (cb, _, _) => if c < cb then some (c, ij.1, ij.2) else b) none
+  match best with
+  | none => (0, 0)
+  | some (_, i, j) => (i, j)
+
+def pairStep (dis : List (List Rat)) (m : Nat) (s : PairSt) : PairSt :=
+  let ij := pairArgmin dis s m
+  ⟨s.rows.set ij.1 true, s.cols.set ij.2 true, s.pairs ++ [ij]⟩
+
+def pairRun (dis : List (List Rat)) (m : Nat) : Nat → PairSt → PairSt
+  | 0, s => s
+  | k+1, s => pairRun dis m k (pairStep dis m s)
+
+/-- the list of (branch index, child index) pairs, in the order the loop finds them -/
+def pairGreedy (dis : List (List Rat)) : List (Nat × Nat) :=
+  let m := dis.length
+  (pairRun dis m m ⟨List.replicate m false, List.replicate m false, []⟩).pairs
+
+/-- `pair d=<row;row;…>` → `b:e,b:e,…` -/
+def handlePair (args : List String) : String :=
+  match Proto.arg args "d" with
+  | some d =>
+    match ((d.splitOn ";").filter (· ≠ "")).mapM Resample.rats with
+    | none => "bad-args"
+    | some dis => ",".intercalate ((pairGreedy dis).map fun p => s!"{p.1}:{p.2}")
+  | none => "bad-args"
 end Mst
